@@ -259,7 +259,7 @@ func drawFault(rt *rapid.T, kinds []string, nsteps, ntx int) Fault {
 		}
 	case f.Kind == "cancel_out":
 		f.At = rapid.IntRange(0, nsteps).Draw(rt, "cancel_at")
-	case f.Kind == "cancel_in" || f.Kind == "cancel_busy" || f.Kind == "handler_err" || f.Kind == "handler_err_cancel" || f.Kind == "deadline_in":
+	case f.Kind == "cancel_in" || f.Kind == "cancel_busy" || f.Kind == "handler_err" || f.Kind == "handler_err_cancel" || f.Kind == "deadline_in" || f.Kind == "handler_panic":
 		f.At = rapid.IntRange(1, max(1, ntx)).Draw(rt, "call_at")
 		f.Sub = rapid.IntRange(0, len(handlerErrors)-1).Draw(rt, "handler_err_value")
 	case f.Kind == "cancel_log":
